@@ -263,6 +263,40 @@ theorem jsonrpc_request (path method params : Bytes) (md : List (Bytes × Bytes)
   simp only [hmd, if_true, List.isEmpty_nil]
   rfl
 
+
+/-- a JSON-RPC NOTIFICATION (no id) is the native one-way request for the same service, method,
+    arguments and metadata: the same message reaches the shared pipeline -/
+theorem jsonrpc_notification_request (path method params : Bytes) (md : List (Bytes × Bytes)) (hkeys : (md.map (·.1)).Nodup)
+    (hp : path ≠ []) (hm : ∀ x ∈ method, x ≠ 0x2E#8) :
+    jsonrpcReq false (path ++ 0x2E#8 :: method) params (encodeValues md) []
+      = some (nativeReq 0#64 C.SerializeType_JSON false true path method md params) := by
+  unfold jsonrpcReq
+  rw [splitMethod_join path method hp hm]
+  have hmd : (if (encodeValues md).isEmpty then [] else firstWins (parseQuery (encodeValues md)).1) = md := by
+    rw [parseQuery_encodeValues, firstWins_nodup md hkeys]
+    split
+    · rename_i he
+      cases md with
+      | nil => rfl
+      | cons e rest =>
+        exfalso
+        have : (encodeValues (e :: rest)).isEmpty = false := by
+          unfold encodeValues
+          cases rest <;> simp [joinAmp, pairOf]
+        rw [this] at he; cases he
+    · rfl
+  simp only [hmd, List.isEmpty_nil]
+  rfl
+
+/-- …so it invokes a handler exactly as often as that one-way request does on the native protocol -/
+theorem jsonrpc_notification_invocations (env : Env) (path method params : Bytes) (md : List (Bytes × Bytes))
+    (hkeys : (md.map (·.1)).Nodup) (hp : path ≠ []) (hm : ∀ x ∈ method, x ≠ 0x2E#8) :
+    gwInvokes (jsonrpc true env false (path ++ 0x2E#8 :: method) params (encodeValues md) [])
+      = (((httpOne true env (nativeReq 0#64 C.SerializeType_JSON false true path method md params)).1).filter (· == .invoke)).length := by
+  unfold jsonrpc
+  rw [jsonrpc_notification_request path method params md hkeys hp hm]
+  rfl
+
 /-- **JSON-RPC ≡ native**: same outcome (reply payload or error text) and the same number of handler
     invocations as the identical request on the native protocol -/
 theorem jsonrpc_equals_native (env : Env) (path method params : Bytes) (md : List (Bytes × Bytes))
